@@ -87,5 +87,3 @@ func cmdVC(args []string) {
 		os.Exit(1)
 	}
 }
-
-func cmdCheck(args []string) {}
